@@ -15,14 +15,10 @@ impl InfixFilter {
             InfixFilter::Timstmps(infix_format) => {
                 timestamp_from_ts_infix(infix, infix_format).is_ok()
             }
-            InfixFilter::Numbrs => {
-                if infix.len() > 2 {
-                    let mut chars = infix.chars();
-                    chars.next().unwrap() == 'r' && chars.next().unwrap().is_ascii_digit()
-                } else {
-                    false
-                }
-            }
+            // 'r' and the number, nothing else
+            InfixFilter::Numbrs => infix.strip_prefix('r').is_some_and(|digits| {
+                !digits.is_empty() && digits.bytes().all(|b| b.is_ascii_digit())
+            }),
             #[cfg(test)]
             InfixFilter::StartsWth(s) => infix.starts_with(s),
             InfixFilter::Equls(s) => infix.eq(s),
